@@ -270,6 +270,10 @@ func (state *RuntimeState) webauthnAuthFinish(w http.ResponseWriter, r *http.Req
 		http.Error(w, "challenge missing", http.StatusBadRequest)
 		return
 	}
+	if localAuth.ExpiresAt.Before(time.Now()) {
+		http.Error(w, "challenge expired", http.StatusBadRequest)
+		return
+	}
 
 	parsedResponse, err := protocol.ParseCredentialRequestResponse(r)
 	if err != nil {
